@@ -1,4 +1,5 @@
 import CDVProofs.Header
+import CDVProofs.BytesInv
 import CDVProofs.Props.C09
 import CDVProofs.Props.C10
 import CDVProofs.Props.C03
@@ -44,6 +45,24 @@ theorem C01_args (argc pos kw : Nat) (varnames : List PStr) (varargs varkw : Boo
     a.paramNames.length = a.posOnly.length + a.posOrKw.length + a.kwOnly.length + (if a.varPos.isSome then 1 else 0) + (if a.varKw.isSome then 1 else 0) ∧
     a.varnameOrder = varnames.take (argc + kw + (if varargs then 1 else 0) + (if varkw then 1 else 0)) :=
   header_args_roundtrip argc pos kw varnames varargs varkw a h hlen hnodup
+
+/-- **Bytecode.**  For every byte string that does not end inside an instruction and has at most three `EXTENDED_ARG`
+    prefixes per instruction (what CPython emits): writing every instruction `_parse_bytes` read with the assembler loop
+    of `blocks_to_bytes`, in the number of code units it was read with, gives the byte string back — operands of any
+    size, negative (wrapped) operands, redundant prefixes included.  (`C03_reads_back` is the converse.)
+    The widths: jumps keep theirs as `_n_args_override`; other instructions are re-assembled in the minimal width, which
+    is the width CPython's compiler gives them — that last fact is about compiler output and is decided by the check. -/
+theorem C01_bytecode (code : List Nat) (raws : List RawI) (hb : ∀ x ∈ code, x < 256) (hc : Complete code 0)
+    (hp : parseBytes code = .ok raws) (hn : ∀ r ∈ raws, r.nargs ≤ 4) :
+    code = (raws.map (fun r => emitOne r.op r.arg r.nargs)).flatten :=
+  emit_parseBytes code raws hb hc hp hn
+
+/-- non-vacuity: a jump with a redundant prefix and a wrapped (negative) operand -/
+example : Complete [144, 0, 113, 4, 144, 255, 144, 255, 144, 255, 100, 254] 0 ∧
+    parseBytes [144, 0, 113, 4, 144, 255, 144, 255, 144, 255, 100, 254] = .ok [⟨113, 4, 2, 0, 4⟩, ⟨100, -2, 4, 4, 12⟩] := by
+  constructor
+  · simp [Complete, EXTENDED_ARG]
+  · rfl
 
 /-- non-vacuity: `def f(a, b=1, *c, d, **e)` — `co_varnames = (a, b, d, c, e)`, flags OPTIMIZED|NEWLOCALS|VARARGS|VARKEYWORDS|NOFREE -/
 example :
